@@ -17,12 +17,20 @@ def isPanic {α : Type} (r : Except String α) (msg : String) : Bool :=
   | .error e => e == msg
   | .ok _ => false
 
-/-- F-C17-1: the peer acknowledges one byte of a three-byte segment and shrinks its window to 2:
-    `segments()` computes `2 - 3` -/
-theorem c17_total_counterexample_window_shrink :
-    isPanic (Sys.run {} (handshakeOps ++
-      [.write .A [1, 2, 3], .emit .A, .inject .A (forge .A 16 5001 1002 2 []), .emit .A]))
-      "panic:sub-overflow:segments.max_bytes" = true := by decide
+/-- the segments returned by the last op when it was an `emit` -/
+def lastEmit (r : Except String (Sys × List Res)) : Option (List Segment) :=
+  match r with
+  | .ok (_, rs) => match rs.getLast? with
+    | some (.emitted _ segs) => some segs
+    | _ => none
+  | .error _ => none
+
+/-- F-C17-1 (fixed): the peer acknowledges one byte of a three-byte segment and shrinks its
+    window to 2; `segments()` used to compute `2 - 3` and panic, now it sends nothing new -/
+theorem c17_regression_window_shrink :
+    lastEmit (Sys.run {} (handshakeOps ++
+      [.write .A [1, 2, 3], .emit .A, .inject .A (forge .A 16 5001 1002 2 []), .write .A [4, 5], .emit .A]))
+      = some [] := by decide
 
 /-- F-C17-2: a segment accepted only because its FIN lies in the window (`seq = RCV.NXT-2`,
     one byte, FIN): `text_len - already_received = 1 - 2` -/
